@@ -110,7 +110,7 @@ Definition a_count (hu : nat) (n : option nat) : MA Z :=
 Definition a_image (pre : bool) (ht hs : nat) (rn : list (nat * nat))
     (q : list nat) (fa : bool) : MA nat :=
   t <- node_of ht ;; s <- node_of hs ;;
-  r <- lift ((if pre then preimage else image) t s true rn true q fa) ;;
+  r <- lift ((if pre then preimage_pub else image_pub) t s true rn true q fa) ;;
   wrap r.
 
 (** ** [Function] methods *)
